@@ -529,6 +529,18 @@ fn run_history(i: u64, cfg: Cfg, rng: rand_chacha::ChaCha20Rng, r: &mut Reporter
         }
         let t_step = std::time::Instant::now();
         let mut choice = wd.rng.gen_range(0..100);
+        if let Some((a, left, src)) = wd.followup {
+            // send-max right after a wallet shielding transaction was mined, then one block deeper, ...
+            proposal_op(&mut wd, r, d);
+            r.count("sendmax_followups_of_a_mined_shielding_transaction", 1);
+            wd.followup = if left > 1 { Some((a, left - 1, src)) } else { None };
+            let n = wd.rng.gen_range(1..3);
+            wd.mine(n);
+            wd.sync();
+            note_expiries(&mut wd, r);
+            r.count("ms_proposal_ops", t_step.elapsed().as_millis() as u64);
+            continue;
+        }
         if wd.mine_pending_soon && choice > 66 {
             // a freshly stored shielding transaction gets mined while the shielded coins are still shallow
             wd.mine_pending_soon = false;
@@ -605,9 +617,13 @@ fn run_history(i: u64, cfg: Cfg, rng: rand_chacha::ChaCha20Rng, r: &mut Reporter
                 wd.sync();
             }
             88..=92 => {
+                wd.shield_just_mined = None;
                 if wd.mine_pending() > 0 {
                     if wd.rng.gen_bool(0.9) {
                         wd.sync();
+                        if let Some((a, src)) = wd.shield_just_mined.take() {
+                            wd.followup = Some((a, 4, src));
+                        }
                     }
                 }
             }
